@@ -700,6 +700,10 @@ func writeEvidence(x *Exec, plan *Plan, prop, tier string, seed int, obls []*Obl
 		"timing":                   map[string]float64{"load_s": loadSecs, "vcgen_s": genSecs, "solve_s": solveSecs},
 		"report_lines":             lines,
 	}
+	if st := os.Getenv("VERIF_SELFTEST"); st != "" {
+		// thorough tier: what the wrapper's seed runs and must-fail corpus (run before this one) found
+		cov["selftest"] = st
+	}
 	ev := map[string]interface{}{
 		"property_id": prop,
 		"tier":        tier,
@@ -712,5 +716,5 @@ func writeEvidence(x *Exec, plan *Plan, prop, tier string, seed int, obls []*Obl
 	}
 	os.MkdirAll(filepath.Join(verifDir, "evidence"), 0o755)
 	data, _ := json.MarshalIndent(ev, "", " ")
-	os.WriteFile(filepath.Join(verifDir, "evidence", prop+".json"), append(data, '\n'), 0o644)
+	os.WriteFile(filepath.Join(verifDir, "evidence", prop+".json"+os.Getenv("VERIF_EVIDENCE_SUFFIX")), append(data, '\n'), 0o644)
 }
